@@ -198,3 +198,10 @@ PROPS["C22"] = dict(explanation="As C21, plus candlecandler.CandleCandler.Accum:
     runs=[dict(pkg="contrib/candler/candlecandler", files=["c21_candles.go"], entries=["VerifC22Compose"], must_reach=["entered", "aggregated"], opts=dict(timeout=30))],
     bounds=["timeframe pairs (1Min,5Min), (5Min,1H), (1H,1D), (10Sec,1Min)", "1..3 rows; each row's fine window case-split over the first two and the last fine window of coarse window 0 and the first of coarse window 1; second, nanosecond, price symbolic, timestamps distinct"],
     outside=["fine windows in the middle of a coarse window other than the second", "more than 3 rows", "Sum/Avg columns"], stubs=AGG_STUBS, assumptions=COMMON_ASSUME)
+
+
+PROPS["C23"] = dict(explanation="Bounded symbolic execution of the real count/min/max/avg/gap aggregates (New, Accum, Output), uda.ColumnToFloat32/64 and functions.ArgumentMap on one column of 0..4 symbolic values (column type case-split) resp. 0..4 symbolic epochs: count = number of rows; min/max bound every value (as single-precision numbers) and are one of them; avg times the row count equals the exact sum within a stated tolerance (relaxed reals: each floating-point operation within relative error 2^-53); gap with an explicit threshold reports exactly the consecutive pairs whose difference exceeds it, in order, with their bounds.",
+    runs=[dict(pkg="uda/gap", files=["c23_aggs.go"], entries=["VerifC23Scalar", "VerifC23Gap"], must_reach=["entered", "aggregated"], opts=dict(timeout=60))],
+    bounds=["0..4 rows; column types float32, float64, int32, int64 (min/max refuse non-float32 columns outright: reached and recorded, not an error of value)", "values: floats k/16 resp. k/1024 with small numerators, integers any value of the type", "gap thresholds 1Sec, 10Sec, 1Min; epochs symbolic within 100000 s, any order"],
+    outside=["avg/min/max of an empty input (avg is 0/0)", "gap without a threshold (z-score mode)", "the SQL front end (sqlparser.AggRunner) that maps columns to these aggregates", "NaN/Inf"],
+    stubs=AGG_STUBS + ["gonum f64.AxpyUnitaryTo (assembly): dst[i] = alpha*x[i] + y[i] with two roundings", "time.Now in Output(): symbolic clock"], assumptions=COMMON_ASSUME)
